@@ -16,7 +16,7 @@ RULE = {"C12": "exhaustive: every attribute name of StateMachine (public, privat
                "default states after overriding.  Non-trivial = hierarchy with >=2 classes and >=1 override, or an exhaustive "
                "item; distinct = hash of the definition."}
 RULE["C12"] += '  Also: aliases of inherited states in child / grandchild / mix-in classes; every definition item once in natural and once in a shuffled order.'
-REQUIRED = {"C12": {"alias-of-inherited-state-rejected": 27, "forbidden-name-rejected": 100, "illegal-signature-rejected": 100, "legal-signature-accepted": 48,
+REQUIRED = {"C12": {"machine-bound-under-a-used-name": 50, "alias-of-inherited-state-rejected": 27, "forbidden-name-rejected": 100, "illegal-signature-rejected": 100, "legal-signature-accepted": 48,
                     "alias-rejected": 3, "outside-statemachine-rejected": 3, "direct-call-rejected": 50,
                     "hier-accepted": 100, "hier-no-first": 30, "hier-multiple-first": 30, "hier-multiple-default": 30,
                     "hier-override-by-state": 50, "hier-override-by-nonstate": 20, "hier-diamond": 30,
@@ -24,6 +24,11 @@ REQUIRED = {"C12": {"alias-of-inherited-state-rejected": 27, "forbidden-name-rej
 ASSUMPTIONS = {"C12": ["'a StateMachine attribute' is read as hasattr(StateMachine, name); names that exist only as annotations are probed and reported, not judged",
                        "the position of an overridden state in state_names, and the order between sibling base classes, are not specified"]}
 
+# the documented public interface of StateMachine - what "a StateMachine attribute" means to a user - pinned here so that
+# the list of names that must be refused does not shrink with the implementation's own reflection
+# (state_names / state_descriptions / logger exist on the class only as annotations: probed and reported, not judged - see ASSUMPTIONS)
+PINNED = ["VERBOSE_LOGGING", "current_state", "done", "engage", "execute", "is_executing", "next_state", "next_state_now",
+          "on_disable", "on_enable"]
 PARAMS = ("tm", "state_tm", "initial_call")
 SUBSETS = [list(p) for r in range(4) for p in itertools.permutations(PARAMS, r)]
 FOREIGN = ["x", "t", "time", "state", "tm2", "initialcall", "Tm", "state_time", "args", "kwargs", "cls", "self2", "_tm"]
@@ -79,7 +84,7 @@ def run_item(acc, item):
             else:
                 acc.violation("C12/forbidden-name-wrong-error", f"state named {name!r} ({dec}): raised {e!r}, expected InvalidStateName", item, {})
             return
-        if hasattr(SM, name):
+        if hasattr(SM, name) or name in PINNED:
             acc.violation("C12/forbidden-name-accepted", f"a state named {name!r} ({dec}) collides with a StateMachine attribute but was accepted", item, {})
         else:
             acc.ev("annotation-only-name-accepted(observation)")
@@ -166,7 +171,7 @@ def run_item(acc, item):
 def exhaustive_items():
     import magicbot.state_machine as smm
     items = []
-    names = sorted(set(dir(smm.StateMachine)) | set(getattr(smm.StateMachine, "__annotations__", {})))
+    names = sorted(set(dir(smm.StateMachine)) | set(getattr(smm.StateMachine, "__annotations__", {})) | set(PINNED))
     for name in names:
         if not name.isidentifier():
             continue
@@ -223,7 +228,7 @@ def gen_hier(rng):
                 members.append({"name": nm, "kind": rng.choice(["state", "timed"]), "first": rng.random() < p_first,
                                 "doc": rng.choice([None, f"{name}.{nm} doc", f"\n    {name}.{nm}\n      indented\n    "])})
         out.append({"name": name, "bases": bases, "members": members})
-    return {"mode": "hier", "shape": shape, "classes": out, "instantiate_bases": rng.random() < 0.5}
+    return {"mode": "hier", "shape": shape, "classes": out, "instantiate_bases": rng.random() < 0.5, "reuse_name": rng.random() < 0.2}
 
 
 def run_hier(acc, case, uid):
@@ -333,6 +338,15 @@ def run_hier(acc, case, uid):
     # ---- state_names / state_descriptions
     import logging
     m.logger = logging.getLogger(uid)
+    if case.get("reuse_name"):
+        # another machine class was bound under this component name earlier in the process (robot code reloaded in a
+        # simulator session, a test suite creating several robots)
+        prev = type("Prev", (SM,), {"zz_prev": decs["state"](_fn("zz_prev", "self", "old doc"), first=True)})()
+        prev.logger = m.logger
+        setup_tunables(prev, uid)
+        for e in prev._tunables.values():
+            e.close()
+        acc.ev("machine-bound-under-a-used-name")
     setup_tunables(m, uid)
     inst = ntcore.NetworkTableInstance.getDefault()
     names = list(m.state_names)
